@@ -10,7 +10,7 @@ import (
 
 func init() {
 	register(&propDef{ID: "C05", Run: runC05,
-		Explain: "Structural necessary conditions of 'unpinned requests rotate evenly over the backends registered right now', decided on SSA/CFG and must-hold locksets of /repo: (1) lockset: every access to RoundRobinBackend.index, .backends and .backendMap outside the constructor holds the pool mutex, and the mutating/selecting functions take it once at entry and release it only by defer (one critical section per operation); (2) paired-update: AddBackend appends one element, registers it under GetAddress() and notifies HandleBackendAdded(backend, pool), each exactly once on every path; RemoveBackend, when the address is registered, deletes exactly the list element whose GetAddress() equals the argument (delete-one under that equality only), deletes the map entry, closes that element and notifies HandleBackendRemoved, each exactly once, and does nothing otherwise; nobody else writes the three fields; (3) cursor: the only non-constructor store to index is (index + 1) % len(backends) with that length read in the same critical section and guarded > 0, and the advanced value is what getNextBackendIndex returns and what Send passes to the first getBackend; (4) selection: getBackend returns backends[i % n] with n = len(backends) of the same critical section, guarded n > 0; (5) empty: with no backend both helpers return an error and Send returns an error without calling any backend; (6) rotation-stable: outside AddBackend/RemoveBackend nothing may write into the backing array of the rotation (no sort/copy/in-place append on a view of it); (7) owned-socket: every connection a backend's Close() closes was created for that backend alone (fresh net.Dial*/Listen* result kept nowhere else).",
+		Explain:    "Structural necessary conditions of 'unpinned requests rotate evenly over the backends registered right now', decided on SSA/CFG and must-hold locksets of /repo: (1) lockset: every access to RoundRobinBackend.index, .backends and .backendMap outside the constructor holds the pool mutex, and the mutating/selecting functions take it once at entry and release it only by defer (one critical section per operation); (2) paired-update: AddBackend appends one element, registers it under GetAddress() and notifies HandleBackendAdded(backend, pool), each exactly once on every path; RemoveBackend, when the address is registered, deletes exactly the list element whose GetAddress() equals the argument (delete-one under that equality only), deletes the map entry, closes that element and notifies HandleBackendRemoved, each exactly once, and does nothing otherwise; nobody else writes the three fields; (3) cursor: the only non-constructor store to index is (index + 1) % len(backends) with that length read in the same critical section and guarded > 0, and the advanced value is what getNextBackendIndex returns and what Send passes to the first getBackend; (4) selection: getBackend returns backends[i % n] with n = len(backends) of the same critical section, guarded n > 0; (5) empty: with no backend both helpers return an error and Send returns an error without calling any backend; (6) rotation-stable: outside AddBackend/RemoveBackend nothing may write into the backing array of the rotation (no sort/copy/in-place append on a view of it); (7) owned-socket: every connection a backend's Close() closes was created for that backend alone (fresh net.Dial*/Listen* result kept nowhere else).",
 		NotDecided: "the counts floor(N/k)/ceil(N/k) themselves (they follow arithmetically from 3-4 between membership changes); the window between choosing a backend and writing to it while it is being removed."})
 }
 
